@@ -106,6 +106,9 @@ func (d *Driver) Flush() {
 }
 
 func (d *Driver) pod(n string, i int) *corev1.Pod {
+	if n == "#" {
+		return d.C.PodByID(i)
+	}
 	ps := d.C.PodsOnNode(n)
 	if i < 1 || i > len(ps) {
 		return nil
@@ -318,26 +321,29 @@ func zoneOf(w string) string {
 }
 
 // ReconcileAll runs every reconciler once on every object it owns (one fair round, without tick or kubelet).
-// It returns the number of pod/RS writes issued.
-func (d *Driver) ReconcileAll() int {
-	writes := 0
+// It returns the number of pod/RS writes issued and the number of reconciles that returned an error.
+func (d *Driver) ReconcileAll() (int, int) {
+	writes, errs := 0, 0
+	count := func(ev Event, ok bool) {
+		if ok {
+			writes += countObjWrites(ev)
+			if ev.Res.Err {
+				errs++
+			}
+		}
+	}
 	st := d.C.Project()
 	for _, e := range st.EDS {
-		ev, _ := d.Apply(Action{Op: "EDSReconcile", Key: e.Key})
-		writes += countObjWrites(ev)
+		count(d.Apply(Action{Op: "EDSReconcile", Key: e.Key}))
 	}
 	st = d.C.Project()
 	for _, r := range st.RS {
-		ev, ok := d.Apply(Action{Op: "ERSReconcile", I: r.ID})
-		if ok {
-			writes += countObjWrites(ev)
-		}
+		count(d.Apply(Action{Op: "ERSReconcile", I: r.ID}))
 	}
 	for _, e := range st.EDS {
-		ev, _ := d.Apply(Action{Op: "EDSReconcile", Key: e.Key})
-		writes += countObjWrites(ev)
+		count(d.Apply(Action{Op: "EDSReconcile", Key: e.Key}))
 	}
-	return writes
+	return writes, errs
 }
 
 func countObjWrites(ev Event) int {
@@ -351,19 +357,21 @@ func countObjWrites(ev Event) int {
 }
 
 // Round is one fair round: tick, kubelet progress, every reconciler once.
-func (d *Driver) Round() int {
+func (d *Driver) Round() (int, int) {
 	d.Apply(Action{Op: "Tick", V: "1"})
 	d.Apply(Action{Op: "KRound"})
 	return d.ReconcileAll()
 }
 
 // Converge appends a convergence tail: fair rounds until one issues no object write (twice in a row), at most max rounds.
-// It emits a "tail" event saying how it ended.
+// It emits a "tailEnd" event saying how it ended: quiet (fixpoint reached), rounds, errs (reconciles of the last
+// round that returned an error).
 func (d *Driver) Converge(max int) (rounds int, quiet bool) {
 	d.Emit(Event{Ev: "tailStart", Args: map[string]string{"_": ""}})
-	quietRuns := 0
+	quietRuns, errs := 0, 0
 	for rounds = 0; rounds < max; rounds++ {
-		w := d.Round()
+		var w int
+		w, errs = d.Round()
 		if w == 0 {
 			quietRuns++
 			if quietRuns >= 2 {
@@ -374,7 +382,7 @@ func (d *Driver) Converge(max int) (rounds int, quiet bool) {
 			quietRuns = 0
 		}
 	}
-	d.Emit(Event{Ev: "tailEnd", Args: map[string]string{"_": "", "quiet": strconv.FormatBool(quiet), "rounds": strconv.Itoa(rounds)}})
+	d.Emit(Event{Ev: "tailEnd", Args: map[string]string{"_": "", "quiet": strconv.FormatBool(quiet), "rounds": strconv.Itoa(rounds), "errs": strconv.Itoa(errs)}})
 	return rounds, quiet
 }
 
